@@ -19,6 +19,7 @@ pub struct C07 {
     seed: u64,
     n_alpha: u64,
     n_pad: u64,
+    n_dir: u64,
     n_hdr: u64,
     n_gen: u64,
     n_comp: u64,
@@ -39,6 +40,8 @@ impl C07 {
             n_alpha: 512,
             // final-byte padding: 8 bit offsets x 256 fills, 64 streams per case; stored padding likewise
             n_pad: 64,
+            // directed dynamic headers: run-length symbol x repeat count, HLIT/HDIST/HCLEN values
+            n_dir: 8,
             n_hdr: scaled(tier.pick(2_000, 50_000), scale),
             n_gen: scaled(tier.pick(40_000, 1_000_000), scale),
             n_comp: scaled(tier.pick(8_000, 200_000), scale),
@@ -305,9 +308,120 @@ fn header_stream(r: &mut Rng) -> (String, Vec<u8>, Vec<u8>) {
     (label, w.out, plain)
 }
 
+/// one dynamic block "a...a" under an explicitly shaped header; judged with ground truth if zlib agrees
+fn one_directed(ll: &[u8], rle_style: u32, hlit: usize, hdist: usize, hclen_extra: usize, what: &str, r: &mut Rng, ctx: &mut Ctx) {
+    let first = ll.iter().position(|&l| l != 0).unwrap_or(97);
+    let n = 1 + r.usize_below(6);
+    let toks: Vec<Tok> = vec![Tok::Lit(first as u8); n];
+    let mut dl = vec![0u8; 30];
+    dl[0] = 1;
+    dl[1] = 1;
+    let mut w = BitW::new();
+    w.put(1, 1);
+    w.put(2, 2);
+    if !gen::write_dynamic_header_exact(r, &mut w, ll, &dl, rle_style, hlit, hdist, hclen_extra) {
+        ctx.count("directed_header_not_constructible");
+        return;
+    }
+    let (llc, dlc) = (gen::canon_codes(ll), gen::canon_codes(&dl));
+    gen::write_tokens(&mut w, &toks, ll, &llc, &dl, &dlc);
+    w.pad(r.below(256) as u32);
+    let d = w.out;
+    let plain = vec![first as u8; n];
+    match crate::comp::zlib_inflate_raw(&d, plain.len() + 64) {
+        Some((zp, used)) if zp == plain && used == d.len() => {
+            C07::judge(
+                &d,
+                Some(Truth {
+                    plain: &plain,
+                    consumed: d.len(),
+                }),
+                what,
+                false,
+                ctx,
+                false,
+            );
+            ctx.count("directed_headers");
+        }
+        _ => ctx.count("generator_rejected"),
+    }
+}
+
+fn directed_headers(k: u64, r: &mut Rng, ctx: &mut Ctx) {
+    match k {
+        // symbol 17 / 18 with every legal repeat count (zero runs of 3..=138 between two used literals)
+        0 | 1 => {
+            for gap in 3..=138usize {
+                let first = if k == 0 { 40 } else { 97 };
+                let ll = gen::directed_lengths(first, 1, gap);
+                let hlit = 257;
+                one_directed(&ll, 0, hlit, 2, 0, &format!("zero run of {} (symbol {})", gap, if gap >= 11 { 18 } else { 17 }), r, ctx);
+                ctx.count(if gap >= 11 { "rle18_counts" } else { "rle17_counts" });
+            }
+        }
+        // symbol 16 with every legal repeat count, after non-zero lengths
+        2 => {
+            for m in 4..=7usize {
+                for first in [0usize, 97, 200] {
+                    let ll = gen::directed_lengths(first, m, 5);
+                    one_directed(&ll, 0, 257, 2, 0, &format!("{} equal lengths (symbol 16 x{})", m, m - 1), r, ctx);
+                    ctx.count("rle16_counts");
+                }
+            }
+        }
+        // the same shapes without any run-length symbol, and with random legal splits
+        3 => {
+            for gap in [3usize, 10, 11, 138] {
+                for style in [1u32, 2] {
+                    let ll = gen::directed_lengths(97, 1, gap);
+                    one_directed(&ll, style, 257, 2, 0, &format!("zero run of {} coded with style {}", gap, style), r, ctx);
+                }
+            }
+        }
+        // every HLIT value (257..=286) over a code that needs only 257 symbols
+        4 => {
+            let ll = gen::directed_lengths(40, 1, 5);
+            for hlit in 257..=286usize {
+                one_directed(&ll, 0, hlit, 2, 0, &format!("HLIT={}", hlit), r, ctx);
+                ctx.count("hlit_values");
+            }
+        }
+        // every HDIST value (2..=30; both distance codes of the test code are needed)
+        5 => {
+            let ll = gen::directed_lengths(40, 1, 5);
+            for hdist in 2..=30usize {
+                one_directed(&ll, 0, 257, hdist, 0, &format!("HDIST={}", hdist), r, ctx);
+                ctx.count("hdist_values");
+            }
+        }
+        // every HCLEN slack value
+        6 => {
+            let ll = gen::directed_lengths(40, 1, 5);
+            for extra in 0..=15usize {
+                one_directed(&ll, 0, 257, 2, extra, &format!("HCLEN slack +{}", extra), r, ctx);
+                ctx.count("hclen_values");
+            }
+        }
+        // combinations
+        _ => {
+            for _ in 0..200 {
+                let gap = 3 + r.usize_below(136);
+                let m = 1 + r.usize_below(7);
+                let first = r.usize_below(100);
+                let ll = gen::directed_lengths(first, m, gap);
+                let hlit = 257 + r.usize_below(30);
+                let hdist = 2 + r.usize_below(29);
+                let style = r.below(3) as u32;
+                let extra = r.usize_below(6);
+                one_directed(&ll, style, hlit, hdist, extra, "directed header, random combination", r, ctx);
+            }
+        }
+    }
+}
+
 impl Monitor for C07 {
     fn ncases(&self) -> u64 {
-        self.n_alpha + self.n_pad + self.n_hdr + self.n_gen + self.n_comp + self.n_shape
+        self.n_alpha + self.n_pad + self.n_dir + self.n_hdr + self.n_gen + self.n_comp + self.n_shape
     }
 
     fn run_case(&mut self, k: u64, ctx: &mut Ctx) {
@@ -369,6 +483,12 @@ impl Monitor for C07 {
             return;
         }
         k -= self.n_pad;
+        if k < self.n_dir {
+            let mut r = Rng::derive(self.seed, 0x0706, k, 0);
+            directed_headers(k, &mut r, ctx);
+            return;
+        }
+        k -= self.n_dir;
         if k < self.n_hdr {
             let mut r = Rng::derive(self.seed, 0x0702, k, 0);
             for _ in 0..10 {
